@@ -42,6 +42,7 @@ func (cl *Cluster) Apply(w *world.World) error {
 	}
 	want := map[string]string{} // Kind/ns/name -> expected resourceVersion ("" = whatever is there)
 	gone := map[string]bool{}
+	goneObj := map[string]k8sruntime.Object{}
 	sync := func(kind string, gvr schema.GroupVersionResource, tr k8stesting.ObjectTracker, gvk schema.GroupVersionKind, desired []k8sruntime.Object) error {
 		cur, err := tr.List(gvr, gvk, "")
 		if err != nil {
@@ -89,6 +90,7 @@ func (cl *Cluster) Apply(w *world.World) error {
 					return fmt.Errorf("apply delete %s %s: %w", kind, key, err)
 				}
 				gone[kind+"/"+key] = true
+				goneObj[kind+"/"+key] = o
 			}
 		}
 		return nil
@@ -140,6 +142,7 @@ func (cl *Cluster) Apply(w *world.World) error {
 		return m.GetResourceVersion(), true
 	}
 	start := time.Now()
+	lastPush := start
 	for i := 0; ; i++ {
 		got := sv.VerifStoreVersions()
 		ok := true
@@ -159,6 +162,35 @@ func (cl *Cluster) Apply(w *world.World) error {
 		runtime.Gosched()
 		if i > 1000 {
 			time.Sleep(50 * time.Microsecond)
+		}
+		// The fake API server replays nothing: a change made between an informer's LIST and the start of
+		// its WATCH is never delivered (seen under heavy machine load). After two seconds without progress
+		// the change is announced again - the object is written once more under a new version (a deleted
+		// one is created and deleted again).
+		if time.Since(lastPush) > 2*time.Second {
+			lastPush = time.Now()
+			for k := range touched {
+				rv, exists := current(k)
+				g, inStore := got[k]
+				if exists == inStore && (!exists || g == rv) {
+					continue
+				}
+				parts := strings.SplitN(k, "/", 3)
+				t := trackerOf[parts[0]]
+				if exists {
+					if o, err := t.tr.Get(t.gvr, parts[1], parts[2]); err == nil {
+						o = o.DeepCopyObject()
+						m, _ := meta.Accessor(o)
+						cl.rv++
+						m.SetResourceVersion(fmt.Sprintf("verif-%d", cl.rv))
+						_ = t.tr.Update(t.gvr, o, parts[1])
+					}
+				} else if o := goneObj[k]; o != nil {
+					if err := t.tr.Create(t.gvr, o.DeepCopyObject(), parts[1]); err == nil {
+						_ = t.tr.Delete(t.gvr, parts[1], parts[2])
+					}
+				}
+			}
 		}
 		if time.Since(start) > 10*time.Minute {
 			return fmt.Errorf("harness: informers did not observe the applied world: %s", miss)
